@@ -29,6 +29,7 @@ from ..ref.cmtref import (
     ast_eval,
     ast_rename,
     ast_render,
+    ast_terms,
     dose_value,
 )
 
@@ -36,7 +37,7 @@ PROPERTY = 'C05'
 LEVEL = 'exploration'
 RULE = (
     'direct: 1-6 compartments named from a pool of 8 names, <=14 random directed edges without self loops, rates from '
-    '{K, CL/V, K*Q, Michaelis-Menten VM/(KM + A_x(t)/V) with x the source or another compartment}, 0-2 output flows, '
+    '{K, CL/V, K*Q, Michaelis-Menten VM/(KM + A_x(t)/V) with x the source or another compartment, sums K+K\', CL/V+Q/V\', (CL+Q)/V}, 0-2 output flows, '
     '0-3 doses (Bolus / Infusion by rate / by duration, admid 1-3) on 0-2 compartments, zero-order inputs, lag time and '
     'bioavailability expressions. history: a direct system of <=4 compartments followed by <=10 builder operations '
     '(add/remove compartment, add/remove flow, move/set/add/remove dose, set lag/F/input, optionally continuing from '
@@ -50,7 +51,7 @@ ASSUMPTIONS = [
     'compartment names are unique and avoid METABOLITE/EFFECT/COMPLEX/RESPONSE (name-based central compartment heuristic)',
     'move_dose is only called with source != destination ("from one compartment to another"); admids are >= 1',
     'to_compartmental_system: the recovered *graph* is only required to equal the original when no compartment has two '
-    'outgoing flows with the identical rate expression (its term matching merges them: -2*K*A); the recovered right-hand '
+    'outgoing flows (output included) sharing an additive rate term, e.g. K1 and K1+K2 (its term matching merges them: -2*K*A); the recovered right-hand '
     'sides must agree numerically in every case; doses/lag/F are not recoverable from equations and not compared',
     'CompartmentalSystem.__eq__ raises ValueError for systems without dose or without output flow (sub-check eq_total owns '
     'that finding); direct/history fall back to comparing to_dict() on such shapes',
@@ -78,7 +79,7 @@ SYMS = (
 # generator
 
 _i = st.integers(0, 23)
-RATE = st.tuples(st.sampled_from([0, 0, 0, 1, 1, 2, 2, 3]), _i, _i, st.sampled_from([0, 0, 0, 0, 0, 0, 0, 1, 2, 3])).map(list)
+RATE = st.tuples(st.sampled_from([0, 0, 0, 1, 1, 2, 2, 3, 4, 4, 5, 6, 6]), _i, _i, st.sampled_from([0, 0, 0, 0, 0, 0, 0, 1, 2, 3])).map(list)
 AUX = st.tuples(st.integers(0, 2), _i, _i).map(list)
 DOSE = st.tuples(st.integers(0, 2), st.integers(0, 2), st.integers(0, 1), st.integers(0, 1)).map(list)
 
@@ -150,9 +151,18 @@ def _int(x):
 
 def mk_rate(r, src, names):
     kind, a, b, x = (_int(v) for v in _pad(r, 4))
-    kind %= 4
+    kind %= 7
     if kind == 0:
         return ['sym', f'K{a % 6}']
+    if kind == 4:
+        # sum of two different symbols
+        return ['add', ['sym', f'K{a % 6}'], ['sym', f'K{(a % 6 + 1 + b % 5) % 6}']]
+    if kind == 5:
+        # sum of two quotients
+        return ['add', ['div', ['sym', f'CL{a % 4}'], ['sym', f'V{b % 4}']], ['div', ['sym', f'Q{a % 4}'], ['sym', f'V{(b + 1) % 4}']]]
+    if kind == 6:
+        # (a + b)/V
+        return ['div', ['add', ['sym', f'CL{a % 4}'], ['sym', f'Q{b % 4}']], ['sym', f'V{b % 4}']]
     if kind == 1:
         return ['div', ['sym', f'CL{a % 4}'], ['sym', f'V{b % 4}']]
     if kind == 2:
@@ -606,14 +616,23 @@ def check_subs(cs, ref, env, spec, rebuild, deferred):
 
 
 def aliased_outflows(ref):
-    """some compartment has two outgoing flows with the identical rate expression"""
+    """some compartment has two outgoing flows (output included) that share an additive term of the
+    rate (K1+K2 and K1; (CL+Q)/V and CL/V; two identical rates): their contributions merge into one
+    term -2*K1*A in the source equation and cannot be told apart by term matching"""
     seen = set()
     for (s, d), e in ref.edges.items():
-        k = (s, json.dumps(e))
-        if k in seen:
-            return True
-        seen.add(k)
+        for t in ast_terms(e):
+            if (s, t) in seen:
+                return True
+            seen.add((s, t))
     return False
+
+
+def additive_edges(ref):
+    """flows whose rate is a sum of >= 2 terms: (to compartments, to output)"""
+    c2c = [k for k, e in ref.edges.items() if k[1] != OUT and len(ast_terms(e)) > 1]
+    out = [k for k, e in ref.edges.items() if k[1] == OUT and len(ast_terms(e)) > 1]
+    return c2c, out
 
 
 def foreign_amount_edges(ref):
@@ -689,6 +708,15 @@ def classify(ref):
         cl.append('foreign-amount-rate')
     if aliased_outflows(ref):
         cl.append('aliased-outflows')
+    c2c, out = additive_edges(ref)
+    if c2c:
+        cl.append('additive-rate:compartment')
+        if not aliased_outflows(ref) and not foreign_amount_edges(ref):
+            cl.append('additive-rate:compartment:graph-compared')
+    if out:
+        cl.append('additive-rate:output')
+        if not aliased_outflows(ref) and not foreign_amount_edges(ref):
+            cl.append('additive-rate:output:graph-compared')
     if any(c['input'] != ZERO for c in ref.comps.values()):
         cl.append('zero-order-input')
     if any(c['lag'] != ZERO or c['F'] != ONE for c in ref.comps.values()):
@@ -1056,7 +1084,7 @@ KNOWN_PREDICATES = {
 def selfcheck():
     # the AST evaluator and the IR evaluator agree on every expression shape the generator emits
     env = make_env([1, 2, 3, 4, 5, 6, 0, 1])
-    for r in ([0, 1, 2, 0], [1, 3, 2, 0], [2, 5, 1, 0], [3, 1, 2, 0], [3, 2, 1, 2]):
+    for r in ([0, 1, 2, 0], [1, 3, 2, 0], [2, 5, 1, 0], [3, 1, 2, 0], [3, 2, 1, 2], [4, 5, 4, 0], [5, 3, 3, 0], [6, 2, 1, 0]):
         a = mk_rate(r, 'CENTRAL', ['CENTRAL', 'DEPOT'])
         if not close(ast_eval(a, env), ev(px(a), env)):
             raise HarnessError(f'AST and IR evaluation disagree on {a}')
